@@ -21,10 +21,12 @@ Open Scope Z_scope.
 (* ---- values ------------------------------------------------------------------------------- *)
 (* a function value: a lambda (c_named = false) or a named function with its parameters
    (a count of stack items, a name, or `*`: the count itself is popped); c_arity is the attribute `.arity` / the declared arity of the lambda template,
-   c_stored the attribute `.stored_arity` set by the modifiers ƒ ɖ *)
+   c_stored the attribute `.stored_arity` set by the modifiers ƒ ɖ; c_env the frames of the defs the
+   function was defined in (its closure cells), innermost first; c_name the VAR_<name> of a named function *)
 Inductive param := PNum (n : nat) | PName (x : str) | PStar.
 Record closure := mkClo {
-  c_named : bool; c_params : list param; c_arity : Z; c_stored : option Z; c_body : list struct }.
+  c_named : bool; c_name : str; c_params : list param; c_arity : Z; c_stored : option Z; c_body : list struct;
+  c_env : list nat }.
 
 Inductive value := VInt (z : Z) | VStr (t : str) | VList (l : list value) | VFun (c : closure).
 
@@ -51,7 +53,9 @@ Fixpoint mapM {A B} (f : A -> option B) (l : list A) : option (list B) :=
    fstack   ctx.function_stack, innermost first (None: a lambda entered with self=None);
             sdepth = len(ctx.stacks)
    reg      ctx.register; vars = the VAR_<name> globals of the exec namespace;
-   locs     the VAR_<name> locals of the running function (its named parameters);
+   heap     the frames of every def entered so far that has local VAR_<name>s: name -> cell (None =
+            not assigned yet); frames are never dropped, closures may outlive the call;
+   cur      the frames the running code sees, innermost first ([] at module level);
    this     the Python local `this` of the running def (the function itself)
    out      everything printed so far; printed = ctx.printed *)
 Definition scope := (list value * nat)%type.
@@ -64,33 +68,36 @@ Record state := mkSt {
   sdepth : nat;
   reg : value;
   vars : list (str * value);
-  locs : list (str * value);
+  heap : list (list (str * option value));
+  cur : list nat;
   this : option closure;
   out : str;
   printed : bool }.
 
 Definition set_stk (s : state) (x : list value) : state :=
-  mkSt x (ctxv s) (top_in s) (inner s) (fstack s) (sdepth s) (reg s) (vars s) (locs s) (this s) (out s) (printed s).
+  mkSt x (ctxv s) (top_in s) (inner s) (fstack s) (sdepth s) (reg s) (vars s) (heap s) (cur s) (this s) (out s) (printed s).
 Definition set_ctxv (s : state) (x : list value) : state :=
-  mkSt (stk s) x (top_in s) (inner s) (fstack s) (sdepth s) (reg s) (vars s) (locs s) (this s) (out s) (printed s).
+  mkSt (stk s) x (top_in s) (inner s) (fstack s) (sdepth s) (reg s) (vars s) (heap s) (cur s) (this s) (out s) (printed s).
 Definition set_top_in (s : state) (x : scope) : state :=
-  mkSt (stk s) (ctxv s) x (inner s) (fstack s) (sdepth s) (reg s) (vars s) (locs s) (this s) (out s) (printed s).
+  mkSt (stk s) (ctxv s) x (inner s) (fstack s) (sdepth s) (reg s) (vars s) (heap s) (cur s) (this s) (out s) (printed s).
 Definition set_inner (s : state) (x : list scope) : state :=
-  mkSt (stk s) (ctxv s) (top_in s) x (fstack s) (sdepth s) (reg s) (vars s) (locs s) (this s) (out s) (printed s).
+  mkSt (stk s) (ctxv s) (top_in s) x (fstack s) (sdepth s) (reg s) (vars s) (heap s) (cur s) (this s) (out s) (printed s).
 Definition set_fstack (s : state) (x : list (option closure)) : state :=
-  mkSt (stk s) (ctxv s) (top_in s) (inner s) x (sdepth s) (reg s) (vars s) (locs s) (this s) (out s) (printed s).
+  mkSt (stk s) (ctxv s) (top_in s) (inner s) x (sdepth s) (reg s) (vars s) (heap s) (cur s) (this s) (out s) (printed s).
 Definition set_sdepth (s : state) (x : nat) : state :=
-  mkSt (stk s) (ctxv s) (top_in s) (inner s) (fstack s) x (reg s) (vars s) (locs s) (this s) (out s) (printed s).
+  mkSt (stk s) (ctxv s) (top_in s) (inner s) (fstack s) x (reg s) (vars s) (heap s) (cur s) (this s) (out s) (printed s).
 Definition set_reg (s : state) (x : value) : state :=
-  mkSt (stk s) (ctxv s) (top_in s) (inner s) (fstack s) (sdepth s) x (vars s) (locs s) (this s) (out s) (printed s).
+  mkSt (stk s) (ctxv s) (top_in s) (inner s) (fstack s) (sdepth s) x (vars s) (heap s) (cur s) (this s) (out s) (printed s).
 Definition set_vars (s : state) (x : list (str * value)) : state :=
-  mkSt (stk s) (ctxv s) (top_in s) (inner s) (fstack s) (sdepth s) (reg s) x (locs s) (this s) (out s) (printed s).
-Definition set_locs (s : state) (x : list (str * value)) : state :=
-  mkSt (stk s) (ctxv s) (top_in s) (inner s) (fstack s) (sdepth s) (reg s) (vars s) x (this s) (out s) (printed s).
+  mkSt (stk s) (ctxv s) (top_in s) (inner s) (fstack s) (sdepth s) (reg s) x (heap s) (cur s) (this s) (out s) (printed s).
+Definition set_heap (s : state) (x : list (list (str * option value))) : state :=
+  mkSt (stk s) (ctxv s) (top_in s) (inner s) (fstack s) (sdepth s) (reg s) (vars s) x (cur s) (this s) (out s) (printed s).
+Definition set_cur (s : state) (x : list nat) : state :=
+  mkSt (stk s) (ctxv s) (top_in s) (inner s) (fstack s) (sdepth s) (reg s) (vars s) (heap s) x (this s) (out s) (printed s).
 Definition set_this (s : state) (x : option closure) : state :=
-  mkSt (stk s) (ctxv s) (top_in s) (inner s) (fstack s) (sdepth s) (reg s) (vars s) (locs s) x (out s) (printed s).
+  mkSt (stk s) (ctxv s) (top_in s) (inner s) (fstack s) (sdepth s) (reg s) (vars s) (heap s) (cur s) x (out s) (printed s).
 Definition emit (s : state) (text : str) : state :=
-  mkSt (stk s) (ctxv s) (top_in s) (inner s) (fstack s) (sdepth s) (reg s) (vars s) (locs s) (this s) (out s ++ text) true.
+  mkSt (stk s) (ctxv s) (top_in s) (inner s) (fstack s) (sdepth s) (reg s) (vars s) (heap s) (cur s) (this s) (out s ++ text) true.
 
 Definition push (v : value) (s : state) : state := set_stk s (v :: stk s).
 
@@ -753,7 +760,7 @@ Section WithCalls.
         xdo b <- of_opt (truthy c);
         if b then callstk fA s1 else XOk s1
     else if (m =? 402)%N then                                                 (* ƒ reduce *)
-        let f2 := mkClo (c_named fA) (c_params fA) (c_arity fA) (Some 2) (c_body fA) in
+        let f2 := mkClo (c_named fA) (c_name fA) (c_params fA) (c_arity fA) (Some 2) (c_body fA) (c_env fA) in
         let (s1, x) := pop1 s in
         xdo items <- of_opt (iter_digits x);
         match items with
@@ -761,7 +768,7 @@ Section WithCalls.
         | y :: r => xdo (res, s2) <- fold_app f2 y r s1; XOk (push res s2)
         end
     else if (m =? 598)%N then                                                 (* ɖ scan *)
-        let f2 := mkClo (c_named fA) (c_params fA) (c_arity fA) (Some 2) (c_body fA) in
+        let f2 := mkClo (c_named fA) (c_name fA) (c_params fA) (c_arity fA) (Some 2) (c_body fA) (c_env fA) in
         let (s1, x) := pop1 s in
         xdo items <- of_opt (iter_digits x);
         match items with
@@ -820,14 +827,86 @@ Fixpoint lookup (n : str) (env : list (str * value)) : option value :=
   | [] => None
   | (k, v) :: r => if str_eqb k n then Some v else lookup n r
   end.
-(* a name inside a function: its own parameters first, then the globals *)
-Definition lookup_var (n : str) (s : state) : option value :=
-  match lookup n (locs s) with Some v => Some v | None => lookup n (vars s) end.
-
 Fixpoint assign (n : str) (v : value) (env : list (str * value)) : list (str * value) :=
   match env with
   | [] => [(n, v)]
   | (k, w) :: r => if str_eqb k n then (k, v) :: r else (k, w) :: assign n v r
+  end.
+
+(* ---- Python scoping of the VAR_<name>s -----------------------------------------------------------------------
+   A name that is assigned anywhere in the body of a def (variable set, named for-loop variable, a
+   function definition, a named parameter) is LOCAL to that def -- decided statically, nested defs
+   not looked into.  A read sees the innermost enclosing def that has the name as a local (its cell,
+   shared with every closure defined there; an unassigned cell is an error) and otherwise the module
+   global at the time of the read. *)
+Fixpoint assigned (x : struct) : list str :=
+  match x with
+  | SGeneric t => match tk t with KVarSet => [tv t] | _ => [] end
+  | SIf bs => flat_map (flat_map assigned) bs
+  | SFor names b => match names with n :: _ => [keep re_keep_for n] | [] => [] end ++ flat_map assigned b
+  | SWhile c b => flat_map assigned c ++ flat_map assigned b
+  | SFnDef n _ _ => [keep re_keep_fndef n]
+  | _ => []
+  end.
+Definition assigned_list (l : list struct) : list str := flat_map assigned l.
+
+Fixpoint cell_of (n : str) (fr : list (str * option value)) : option (option value) :=
+  match fr with
+  | [] => None
+  | (k, c) :: r => if str_eqb k n then Some c else cell_of n r
+  end.
+Fixpoint set_cell (n : str) (v : value) (fr : list (str * option value)) : list (str * option value) :=
+  match fr with
+  | [] => []
+  | (k, c) :: r => if str_eqb k n then (k, Some v) :: r else (k, c) :: set_cell n v r
+  end.
+Fixpoint upd_nth {A} (i : nat) (f : A -> A) (l : list A) : list A :=
+  match l, i with
+  | [], _ => []
+  | x :: r, O => f x :: r
+  | x :: r, S j => x :: upd_nth j f r
+  end.
+
+(* Some (Some v): bound in a def; Some None: local to a def but not assigned yet; None: not a local of any
+   enclosing def *)
+Fixpoint lookup_chain (n : str) (hp : list (list (str * option value))) (chain : list nat) : option (option value) :=
+  match chain with
+  | [] => None
+  | id :: r =>
+      match nth_error hp id with
+      | Some fr => match cell_of n fr with Some c => Some c | None => lookup_chain n hp r end
+      | None => lookup_chain n hp r
+      end
+  end.
+
+(* stack.append(VAR_<n>) / VAR_<n>(...): None = NameError / UnboundLocalError *)
+Definition lookup_var (n : str) (s : state) : option value :=
+  match lookup_chain n (heap s) (cur s) with
+  | Some c => c
+  | None => lookup n (vars s)
+  end.
+
+(* VAR_<n> = v in the running code: a local of the running def, a global at module level *)
+Definition assign_var (n : str) (v : value) (s : state) : state :=
+  match cur s with
+  | [] => set_vars s (assign n v (vars s))
+  | id :: _ =>
+      match nth_error (heap s) id with
+      | Some fr =>
+          match cell_of n fr with
+          | Some _ => set_heap s (upd_nth id (set_cell n v) (heap s))
+          | None => set_vars s (assign n v (vars s))
+          end
+      | None => set_vars s (assign n v (vars s))
+      end
+  end.
+
+(* entering a def whose locals are `names`, defined where `env` was visible; a def without locals needs
+   no frame of its own *)
+Definition enter_def (names : list str) (env : list nat) (s : state) : state :=
+  match names with
+  | [] => set_cur s env
+  | _ => set_cur (set_heap s (heap s ++ [map (fun n => (n, None)) names])) (length (heap s) :: env)
   end.
 
 (* the parameters of a named function: a decimal count pops that many items onto the
@@ -840,13 +919,14 @@ Definition param_of (p : str) : option param :=
 
 (* ctx.default_arity = 1 (no flag 2 / 3) *)
 Definition lambda_arity (a : option Z) : Z := match a with Some z => z | None => 1 end.
-Definition mk_lambda (a : option Z) (body : list struct) : closure := mkClo false [] (lambda_arity a) None body.
+Definition mk_lambda (a : option Z) (body : list struct) (env : list nat) : closure :=
+  mkClo false [] [] (lambda_arity a) None body env.
 
 (* transpile.lambda_wrap: the function a modifier operand denotes *)
-Definition operand_closure (x : struct) : closure :=
+Definition operand_closure (x : struct) (env : list nat) : closure :=
   match x with
-  | SLambda a body => mk_lambda a body
-  | _ => mk_lambda (fst (lambda_wrap1 x)) [x]
+  | SLambda a body => mk_lambda a body env
+  | _ => mk_lambda (fst (lambda_wrap1 x)) [x] env
   end.
 
 (* the value a lambda pushes as context value: the argument, or the list of arguments *)
@@ -870,7 +950,7 @@ Definition cfg_of (f : flag) : cfg :=
   end.
 
 Definition init_state (f : flag) (inputs : list value) : state :=
-  mkSt (match f with FlH => [VInt 100] | _ => [] end) [VInt 0] (inputs, O) [] [] 2 (VInt 0) [] [] None [] false.
+  mkSt (match f with FlH => [VInt 100] | _ => [] end) [VInt 0] (inputs, O) [] [] 2 (VInt 0) [] [] [] None [] false.
 
 (* vy_str(x) for the items of join *)
 Definition str_of (v : value) : option str := match v with VStr t => Some t | _ => repr v end.
@@ -934,21 +1014,19 @@ Definition finish (app : app_t) (f : flag) (s : state) : xres state :=
 
 (* ---- the core grammar: exactly what C01 quantifies over -----------------------------------------------------
    indef = the code stands inside a Python `def` (lambda body, function body, list item,
-   modifier operand).  There a variable assignment would create a Python local; the core
-   keeps every assignment (variable set, named loop variable, function definition) at the
-   top level, where the name is a global of the exec namespace.  Outside the core and
-   listed in the report: compressed numbers, string literals with escapes or non-ASCII text, the ghost variable and
-   `_` names, triadic modifiers, elements outside `core_keys`, early exits (X x) where the
-   emitted line is not what the documents say (see break_core / recurse_core).  `core_ok indef` is the part the evaluators themselves enforce (ENotCore);
-   `scope_ok` adds the static name discipline under which the machine's treatment of Python
-   scoping is right: a named parameter is a local of its function, a nested def reading it
-   would go through a closure cell, which the model does not have. *)
+   modifier operand); it only matters for `x` at the top level (prints the stack).  Variable
+   assignments, named loop variables and function definitions may stand anywhere: inside a def
+   they create a local of that def (see `assigned`), which the evaluators model with frames and
+   closure cells.  Outside the core and listed in the report: compressed numbers, string
+   literals with escapes or non-ASCII text, the ghost variable and `_` names (attributes of
+   ctx, not Python names), triadic modifiers, elements outside `core_keys`, early exits (X x)
+   where the emitted line is not what the documents say (see break_core / recurse_core). *)
 Definition token_core (indef : bool) (t : token) : bool :=
   match tk t with
   | KNumber => all_ascii_digits (tv t)
   | KGeneral => match tv t with [k] => mem k core_keys | _ => false end
   | KVarGet => name_ok (tv t)
-  | KVarSet => name_ok (tv t) && negb indef
+  | KVarSet => name_ok (tv t)
   | KString | KCharacter | KCompString => match string_value t with Some _ => true | None => false end
   | _ => false
   end.
@@ -995,12 +1073,12 @@ Fixpoint core_ok (indef : bool) (il : lk) (lam : bool) (x : struct) : bool :=
   | SRecurse p => recurse_core indef il lam p
   | SIf bs => forallb (forallb (core_ok indef il lam)) bs
   | SFor names b =>
-      match names with [] => true | n :: _ => name_ok (keep re_keep_for n) && negb indef end
+      match names with [] => true | n :: _ => name_ok (keep re_keep_for n) end
       && forallb (core_ok indef LFor false) b
   | SWhile c b => forallb (core_ok indef LNone false) c && forallb (core_ok indef LWhile false) b
   | SFnCall n => name_ok (keep re_keep_fncall n)
   | SFnDef n ps b =>
-      negb indef && name_ok (keep re_keep_fndef n) && forallb param_ok ps && forallb (core_ok true LNone false) b
+      name_ok (keep re_keep_fndef n) && forallb param_ok ps && forallb (core_ok true LNone false) b
   | SLambda a b => arity_ok a && forallb (core_ok true LNone true) b
   | SLamOp _ b => forallb (core_ok true LNone false) b
   | SList its => forallb (forallb (core_ok true LNone false)) its
@@ -1012,30 +1090,6 @@ Definition core_ok_list (indef : bool) (il : lk) (lam : bool) (l : list struct) 
 
 (* the body of a function value may be entered: a lambda's own early exits are allowed in it *)
 Definition body_ok (c : closure) : bool := core_ok_list true LNone (negb (c_named c)) (c_body c).
-
-(* ---- names a nested def must not read: loc = the named parameters of the function whose body
-   this is (directly), hid = the named parameters of enclosing functions seen from inside a
-   nested def ---------------------------------------------------------------------------------- *)
-Fixpoint scope_ok (loc hid : list str) (x : struct) : bool :=
-  match x with
-  | SGeneric t => match tk t with KVarGet => negb (mem_str (tv t) hid) | _ => true end
-  | SFnCall n => negb (mem_str (keep re_keep_fncall n) hid)
-  | SIf bs => forallb (forallb (scope_ok loc hid)) bs
-  | SFor _ b => forallb (scope_ok loc hid) b
-  | SWhile c b => forallb (scope_ok loc hid) c && forallb (scope_ok loc hid) b
-  | SFnDef _ ps b =>
-      match mapM param_of ps with
-      | Some l => forallb (scope_ok (flat_map (fun p => match p with PName x => [x] | _ => [] end) l) (hid ++ loc)) b
-      | None => false
-      end
-  | SLambda _ b => forallb (scope_ok [] (hid ++ loc)) b
-  | SLamOp _ b => forallb (scope_ok [] (hid ++ loc)) b
-  | SList its => forallb (forallb (scope_ok [] (hid ++ loc))) its
-  | SMod1 _ a => scope_ok [] (hid ++ loc) a
-  | SMod2 _ a b => scope_ok [] (hid ++ loc) a && scope_ok [] (hid ++ loc) b
-  | SMod3 _ a b c => scope_ok [] (hid ++ loc) a && scope_ok [] (hid ++ loc) b && scope_ok [] (hid ++ loc) c
-  | SBreak _ | SRecurse _ => true
-  end.
 
 (* the parser marks EVERYTHING after a modifier with the modifier as parent; x then calls
    ctx.function_stack[-2].  That is "the current function" only when the x stands inside the
@@ -1060,13 +1114,20 @@ Fixpoint recurse_ok (opw : bool) (x : struct) : bool :=
 
 (* what C01 quantifies over: whole programs *)
 Definition core_program (p : list struct) : bool :=
-  core_ok_list false LNone false p && forallb (scope_ok [] []) p && forallb (recurse_ok false) p.
+  core_ok_list false LNone false p && forallb (recurse_ok false) p.
 
 (* the parameters of a function definition *)
 Definition params_of (ps : list str) : option (list param) := mapM param_of ps.
-Definition mk_named (ps : list param) (body : list struct) : closure := mkClo true ps 0 None body.
+Definition mk_named (name : str) (ps : list param) (body : list struct) (env : list nat) : closure :=
+  mkClo true name ps 0 None body env.
 Definition param_names (ps : list param) : list str :=
   flat_map (fun p => match p with PName x => [x] | _ => [] end) ps.
+(* the parameter lines VAR_<x> = ..., in order, in the function's own frame *)
+Definition bind_params (l : list (str * value)) (s : state) : state :=
+  fold_left (fun st kv => assign_var (fst kv) (snd kv) st) l s.
+Definition of_name {A} (o : option A) : xres A := match o with Some x => XOk x | None => XErr EName end.
+(* the locals of a function value's def: its named parameters and what its body assigns *)
+Definition decl_of (c : closure) : list str := param_names (c_params c) ++ assigned_list (c_body c).
 
 (* ---- how a statement ends: normally, or by an early exit (X / x) -------------------------------------------
    SBrk leaves the innermost loop, SCont goes to its next iteration, SRet v leaves the running
@@ -1106,7 +1167,7 @@ Fixpoint veq_list (a b : list value) : bool :=
   | x :: ra, y :: rb => veq x y && veq_list ra rb
   | _, _ => false
   end.
-Definition a_fun : value := VFun (mkClo false [] 0 None []).
+Definition a_fun : value := VFun (mkClo false [] [] 0 None [] []).
 
 (* outcome code of a run against an observation (error code, final stack bottom first, stdout):
    0 agree; 1 differ; 7 differ in back-quotes only; 2 EStuck; 3 out of fuel; 4 ENotCore; error codes of the observation:
